@@ -27,6 +27,15 @@ theorem abs_of_lt (a : Nat) (ha : a < F.signBit) : F.abs a = a := Nat.mod_eq_of_
 theorem key_withSign (s : Bool) (a : Nat) (ha : a < F.signBit) :
     F.key (F.withSign s a) = if s then -(a : Int) else (a : Int) := by
   unfold key; rw [sign_withSign F s a ha, abs_withSign F s a ha]
+
+theorem isNaN_zero (F : Fmt) : F.isNaN 0 = false := by
+  unfold Fmt.isNaN Fmt.abs; simp
+
+theorem key_zero (F : Fmt) : F.key 0 = 0 := by
+  unfold Fmt.key Fmt.sign Fmt.abs; simp
+
+theorem key_eq_zero_iff (F : Fmt) (x : Nat) : F.key x = 0 ↔ F.abs x = 0 := by
+  unfold Fmt.key; cases F.sign x <;> simp
 end Fmt
 
 end Tetl.C16
